@@ -6,7 +6,7 @@
    C12_dupfree_invariant hold for ALL choosers (not even `rank1_ok` is needed): every
    engine- and thread-dependent tie-break is covered. *)
 From Coq Require Import List Bool ZArith QArith Lia.
-From Splinkv Require Import Model.OneToOne Proofs.OneToOneP.
+From Splinkv Require Import Model.OneToOne Proofs.OneToOneP Proofs.OneToOneGreedyP.
 Import ListNotations.
 Open Scope Z_scope.
 
@@ -62,16 +62,37 @@ Theorem C12_maximal_tiefree :
 Proof. exact maximal_tiefree. Qed.
 Print Assumptions C12_maximal_tiefree.
 
-(* every cluster lies inside one connected component of the >= threshold graph (paths may leave
-   the cluster): for all tie-breaks.  The full statement (paths inside the cluster, tie-free) is
-   NOT proved: see C12_connected_tiefree_partial below and meta/C12.json. *)
-Theorem C12_connected_tiefree_partial :
+(* pairwise distinct probabilities: every final cluster is connected through >= threshold edges
+   INSIDE the cluster (every record on the path belongs to the cluster) *)
+Theorem C12_connected_tiefree :
+  forall dfs thr (chl chr : chooser) fuel nodes E out,
+    NoDup (map n_id nodes) -> tie_free E -> rank1_ok chl -> rank1_ok chr ->
+    oto_loop dfs (df_neighbours thr E) chl chr fuel 1 (df_representatives nodes) = Some out ->
+    forall v w c s s', In (v, c, s) out -> In (w, c, s') out -> conn_in thr E (in_class out c) v w.
+Proof. exact connected_tiefree. Qed.
+Print Assumptions C12_connected_tiefree.
+
+(* stronger: for pairwise distinct probabilities the SQL loop computes exactly the partition of
+   the sequential procedure "edges by decreasing probability; merge the two clusters of an edge
+   iff they share no duplicate-free dataset" (Model/OneToOne.v, greedy_clusters) *)
+Theorem C12_refines_greedy :
+  forall dfs thr (chl chr : chooser) fuel nodes E out,
+    NoDup (map n_id nodes) -> tie_free E -> rank1_ok chl -> rank1_ok chr ->
+    oto_loop dfs (df_neighbours thr E) chl chr fuel 1 (df_representatives nodes) = Some out ->
+    forall v c s w c' s', In (v, c, s) out -> In (w, c', s') out ->
+      (c = c' <-> greedy_clusters dfs thr nodes E v = greedy_clusters dfs thr nodes E w).
+Proof. exact refines_greedy. Qed.
+Print Assumptions C12_refines_greedy.
+
+(* for ALL tie-breaks (ties included): every cluster lies inside one connected component of the
+   >= threshold graph (the path to the representative may leave the cluster) *)
+Theorem C12_connected_within_component :
   forall dfs thr (chl chr : chooser) fuel nodes E out,
     NoDup (map n_id nodes) ->
     oto_loop dfs (df_neighbours thr E) chl chr fuel 1 (df_representatives nodes) = Some out ->
     forall v c s, In (v, c, s) out -> conn_in thr E (fun _ => True) v c.
 Proof. exact connected_weak. Qed.
-Print Assumptions C12_connected_tiefree_partial.
+Print Assumptions C12_connected_within_component.
 
 (* with ties and adversarial (but legal) tie-breaks a final class can be disconnected:
    5 records, record 3 in the duplicate-free dataset 1, edges 0-3 (.7), 1-4, 2-4, 3-4 (.9);
@@ -119,8 +140,13 @@ Example C12_example_tiefree :
   one_to_one_clustering [0; 2] (Some (1 # 2)%Q) first_max last_max 20
     [(0,0);(1,1);(2,2);(3,0);(4,1);(5,2);(6,0);(7,1);(8,2)]
     [(0,1,(90#100)%Q);(1,2,(70#100)%Q);(3,5,(85#100)%Q);(4,5,(91#100)%Q);(6,5,(80#100)%Q);(6,7,(71#100)%Q)]
-  = Some [(0,0);(1,0);(2,0);(3,3);(4,3);(5,3);(6,6);(7,6);(8,8)].
+  = Some [(0,0);(1,0);(2,0);(3,3);(4,3);(5,3);(6,6);(7,6);(8,8)]
+  /\ map (greedy_clusters [0; 2] (Some (1 # 2)%Q)
+            [(0,0);(1,1);(2,2);(3,0);(4,1);(5,2);(6,0);(7,1);(8,2)]
+            [(0,1,(90#100)%Q);(1,2,(70#100)%Q);(3,5,(85#100)%Q);(4,5,(91#100)%Q);(6,5,(80#100)%Q);(6,7,(71#100)%Q)])
+         [0;1;2;3;4;5;6;7;8]
+     = [0;0;0;3;3;3;6;6;8].
 Proof.
-  split; [|split; [exact first_max_ok|split; [exact last_max_ok|vm_compute; reflexivity]]].
+  split; [|split; [exact first_max_ok|split; [exact last_max_ok|split; vm_compute; reflexivity]]].
   unfold tie_free. repeat constructor; intro H; unfold Qeq in H; simpl in H; discriminate.
 Qed.
